@@ -1,4 +1,5 @@
 mod cmpmon;
+mod conc;
 mod engines;
 mod explore;
 mod genops;
@@ -199,6 +200,7 @@ fn main() {
         "growth" => engines::engine_growth(&a),
         "shrink" => engines::engine_shrink(&a),
         "eqclass" => engines::engine_eqclass(&a),
+        "conc" => conc::engine_conc(&a),
         "ints" => sweeps::engine_ints(&a),
         "tls" => sweeps::engine_tls(&a),
         "utf" => sweeps::engine_utf(&a),
